@@ -544,6 +544,7 @@ func ruleFootnoteNumbering(w *World, r *Report) {
 	}
 	// sort comparator compares Index
 	sorted := false
+	var sortBlocks []*ssa.BasicBlock
 	for _, b := range tf.Blocks {
 		for _, ins := range b.Instrs {
 			c, ok := ins.(ssa.CallInstruction)
@@ -574,6 +575,7 @@ func ruleFootnoteNumbering(w *World, r *Report) {
 									_, ok2 := isFieldLoad(bo.Y, fnT, "Index")
 									if ok1 && ok2 {
 										sorted = true
+										sortBlocks = append(sortBlocks, b)
 									}
 								}
 							}
@@ -583,7 +585,58 @@ func ruleFootnoteNumbering(w *World, r *Report) {
 			}
 		}
 	}
+	// the sort is not optional: it lies on every path that attaches the list to the document (an AppendChild on the
+	// Document parameter)
+	skipped := ""
 	if sorted {
+		var doc ssa.Value
+		for _, p := range tf.Params {
+			if strings.HasSuffix(typeShort(p.Type()), "ast.Document") {
+				doc = p
+			}
+		}
+		for _, b := range tf.Blocks {
+			for _, ins := range b.Instrs {
+				c, ok := ins.(ssa.CallInstruction)
+				if !ok || doc == nil {
+					continue
+				}
+				name := ""
+				if c.Common().IsInvoke() {
+					name = c.Common().Method.Name()
+				} else if cal := c.Common().StaticCallee(); cal != nil {
+					name = cal.Name()
+				}
+				if name != "AppendChild" {
+					continue
+				}
+				onDoc := false
+				for _, a := range c.Common().Args {
+					if stripMakeIface(a) == doc {
+						onDoc = true
+					}
+				}
+				if c.Common().IsInvoke() && stripMakeIface(c.Common().Value) == doc {
+					onDoc = true
+				}
+				if !onDoc {
+					continue
+				}
+				dom := false
+				for _, sb := range sortBlocks {
+					if sb == b || sb.Dominates(b) {
+						dom = true
+					}
+				}
+				if !dom {
+					skipped = w.InstrPos(ins)
+				}
+			}
+		}
+	}
+	if sorted && skipped != "" {
+		r.Bad(key+": list ordered by Index", skipped, "the list is attached to the document on a path that skips the sort by Index: the sort is conditional, so for some documents items are listed in definition order while numbered in reference order")
+	} else if sorted {
 		r.OK(key+": list ordered by Index", w.FnPos(tf), "SortChildren with a comparator returning <0 under Index(a) < Index(b)")
 	} else {
 		r.Bad(key+": list ordered by Index", w.FnPos(tf), "the footnote list is not sorted by a comparator on Index: items are listed in definition order while numbered in reference order")
